@@ -714,23 +714,44 @@ static const char* exc_tag(const Tins::exception_base& e) {
     return "exception_base";
 }
 
+static DNS::soa_record make_soa(const Rec& r, bool via_setters) {
+    if (!via_setters) return DNS::soa_record(dotted(r.target), dotted(r.rname), r.soa[0], r.soa[1], r.soa[2], r.soa[3], r.soa[4]);
+    DNS::soa_record soa;   // default constructed, then every setter
+    soa.minimum_ttl(r.soa[4]);
+    soa.expire(r.soa[3]);
+    soa.retry(r.soa[2]);
+    soa.refresh(r.soa[1]);
+    soa.serial(r.soa[0]);
+    soa.rname(dotted(r.rname));
+    soa.mname(dotted(r.target));
+    return soa;
+}
+
 static DNS::resource to_resource(const Rec& r, unsigned style) {
     std::string nm = dotted(r.name);
+    const bool via_setters = (style & 8) != 0;   // the value types can also be filled in field by field
+    std::string data;
     switch (r.kind) {
-        case K_A: return DNS::resource(nm, v4_text(r.addr), r.type, r.cls, r.ttl);
-        case K_AAAA: {
-            std::string t = style % 3 == 0 ? v6_full_text(r.addr, false) : style % 3 == 1 ? v6_short_text(r.addr) : v6_full_text(r.addr, true);
-            return DNS::resource(nm, t, r.type, r.cls, r.ttl);
-        }
-        case K_NAME: return DNS::resource(nm, dotted(r.target), r.type, r.cls, r.ttl);
-        case K_MX: return DNS::resource(nm, dotted(r.target), r.type, r.cls, r.ttl, r.pref);
-        case K_SOA: {
-            DNS::resource res(nm, "", r.type, r.cls, r.ttl);
-            res.data(DNS::soa_record(dotted(r.target), dotted(r.rname), r.soa[0], r.soa[1], r.soa[2], r.soa[3], r.soa[4]));
-            return res;
-        }
-        default: return DNS::resource(nm, std::string(r.raw.begin(), r.raw.end()), r.type, r.cls, r.ttl);
+        case K_A: data = v4_text(r.addr); break;
+        case K_AAAA: data = style % 3 == 0 ? v6_full_text(r.addr, false) : style % 3 == 1 ? v6_short_text(r.addr) : v6_full_text(r.addr, true); break;
+        case K_NAME: case K_MX: data = dotted(r.target); break;
+        case K_SOA: break;
+        default: data = std::string(r.raw.begin(), r.raw.end()); break;
     }
+    if (via_setters) {
+        DNS::resource res;
+        res.ttl(r.ttl);
+        res.query_class(r.cls);
+        res.query_type(r.type);
+        if (r.kind == K_MX) res.preference(r.pref);
+        if (r.kind == K_SOA) res.data(make_soa(r, (style & 16) != 0)); else res.data(data);
+        res.dname(nm);
+        return res;
+    }
+    if (r.kind == K_MX) return DNS::resource(nm, data, r.type, r.cls, r.ttl, r.pref);
+    DNS::resource res(nm, data, r.type, r.cls, r.ttl);
+    if (r.kind == K_SOA) res.data(make_soa(r, (style & 16) != 0));
+    return res;
 }
 
 // compares what the getters of d return with the model; stage = "parse" | "edit" | "reparse"
@@ -991,7 +1012,15 @@ static void history(Src& s, Ctx& ctx, bool big = false) {
                     if (ctx.logging()) ctx.log("edit " + std::to_string(e) + ": add_query " + show(q));
                     ctx.hash(hash_mix(hash_labels(q.name), ((uint64_t)q.type << 16) | q.cls));
                     m.q.push_back(q);
-                    d->add_query(DNS::query(dotted(q.name), (DNS::QueryType)q.type, (DNS::QueryClass)q.cls));
+                    if (q.name.size() & 1) {
+                        DNS::query dq;   // default constructed, then the setters
+                        dq.query_class((DNS::QueryClass)q.cls);
+                        dq.query_type((DNS::QueryType)q.type);
+                        dq.dname(dotted(q.name));
+                        d->add_query(dq);
+                    } else {
+                        d->add_query(DNS::query(dotted(q.name), (DNS::QueryType)q.type, (DNS::QueryClass)q.cls));
+                    }
                 } else {
                     Rec r = gen_rec(x, g);
                     unsigned style = x.u8();
